@@ -73,14 +73,18 @@ func NewFamily(tag string, length int, leafKind, caKind, purpose string, keyOffs
 // Key returns the subject key at a position.
 func (f *Family) Key(pos int) *pki.Key { return f.keys[pos] }
 
+// cn: every CA of a family - intermediates and root alike - carries the SAME
+// distinguished name (each with a key of its own: self-issued, not
+// self-signed, as after a key rollover). Whoever finds an issuer by name
+// instead of by position finds the wrong certificate.
 func (f *Family) cn(pos int) string {
-	switch {
-	case pos == f.Len-1 && f.Len > 1:
-		return f.Tag + "-root"
-	case pos == 0:
+	if pos == 0 && f.Len > 1 {
 		return f.Tag + "-leaf"
 	}
-	return fmt.Sprintf("%s-ca%d", f.Tag, pos)
+	if f.Len == 1 {
+		return f.Tag + "-leaf"
+	}
+	return f.Tag + "-ca"
 }
 
 // URL returns the URL string of a slot. typ is "o" (OCSP) or "d" (CRL).
@@ -95,6 +99,13 @@ func (f *Family) URL(pos int, typ string, slot int, kind string) string {
 		return "http://" + host + path
 	case "HTTP":
 		return "HTTP://" + host + path
+	case "httph":
+		// every distribution point of every certificate of the family on ONE host,
+		// told apart by path
+		if typ == "d" {
+			return "http://" + f.BaseRoute(pos, slot, "httph")
+		}
+		return "http://" + host + path
 	case "same":
 		// the very same URI as the previous distribution point (some CAs repeat it)
 		if typ == "d" && slot > 0 {
@@ -148,6 +159,9 @@ func (f *Family) DeltaURL(pos, slot, k int) string {
 func (f *Family) BaseRoute(pos, slot int, kind string) string {
 	if kind == "same" && slot > 0 {
 		return f.BaseRoute(pos, slot-1, "http")
+	}
+	if kind == "httph" {
+		return fmt.Sprintf("shared.%s.test/p%ds%d/base.crl", strings.ToLower(f.Tag), pos, slot)
 	}
 	if kind == "httpc" {
 		// slot j: the j-th letter of "base" in upper case (slot 0: "Base.crl")
